@@ -156,6 +156,10 @@ int injectbounce(unsigned long id)
   CHECK(id == ID, "injectbounce for this message");
   ++n_bounce_calls;
   if (n_unlink == 0) bounce_before_unlink = 1;
+  /* the cut must be as loose as the callee: injectbounce() builds the names of mess/N and bounce/N in the shared file-name
+   * buffers fn and fn2 (and may leave anything there), so the caller cannot rely on what they held before the call */
+  if (fn.s) { fn.s[0] = 'm'; fn.s[1] = 'e'; fn.s[2] = 's'; fn.s[3] = 's'; fn.s[4] = '/'; fn.s[5] = 'X'; fn.s[6] = 0; fn.len = 7; }
+  if (fn2.s) { fn2.s[0] = 'b'; fn2.s[1] = '/'; fn2.s[2] = 'X'; fn2.s[3] = 0; fn2.len = 4; }
   return in_bounce_ok;
 }
 
